@@ -204,6 +204,43 @@ def r10_fallback_width(m):
     return r
 
 
+def r12_stray_end(m, blocks):
+    from rules import common_block as cb
+    r = RuleResult("C08.R12", "a statement of the END class whose label does not close the construct stays in the body only if it is also an "
+                              "ordinary body statement (a labelled CONTINUE); an END statement that cannot occur in a body is not absorbed")
+    r.floor = 1
+    ctx = cb.get_ctx(m)
+    eng = ctx.engine
+    # the engine's reaction to a label mismatch on an END-class object
+    keeps = None
+    for n in A.body_nodes(eng.node):
+        if isinstance(n, ast.If) and isinstance(n.test, ast.Compare) and "start_label" in A.text(n.test) and "end_label" in A.text(n.test):
+            keeps = any(isinstance(s_, ast.Continue) for s_ in n.body) and not any(isinstance(s_, (ast.Raise, ast.Return)) for s_ in n.body)
+            where = m.loc(eng, n)
+    if keeps is None:
+        r.error("BlockBase.match: the label comparison of start and END statement was not found (anchor changed)")
+        return r
+    for inst in blocks:
+        if inst.flag("match_labels") is not True or not inst.args:
+            continue
+        r.instances += 1
+        end_all = cb.end_all(ctx, inst)
+        body = set()
+        sub = inst.args.get("subclasses")
+        if sub is not None and sub.kind in ("list", "tuple"):
+            for e in sub.v:
+                if e.kind == "class":
+                    body |= m.closure_all(e.v)
+        stray = sorted(k.split(":")[1] for k in end_all if k not in body and m.method(k, "match") is not None)
+        ok = not (keeps and stray)
+        r.ob(ok, "%s: END classes %s, not body statements: %s" % (inst.tag, sorted(k.split(":")[1] for k in end_all), stray))
+        if not ok:
+            r.fail("%s|stray-end-kept|%s" % (inst.tag, ",".join(stray)), "%s: an END-class statement whose label does not match the opening statement is "
+                   "kept as body content and the search goes on; for %s that is never a body statement, so a surplus unlabelled END DO inside a "
+                   "labelled DO is absorbed (`do 10 i=1,2 / x = 1 / end do / 10 continue` is accepted)" % (inst.tag, "/".join(stray)), where)
+    return r
+
+
 def run(m, tier):
     blocks = tables.engine_instances(m, "BlockBase")
     ends = tables.engine_instances(m, "EndStmtBase")
@@ -222,6 +259,7 @@ def run(m, tier):
     from rules import guard_rules
     results.append(guard_rules.guarded_use_rule(m, "C08.R9"))
     results.append(r10_fallback_width(m))
+    results.append(r12_stray_end(m, blocks))
     expl = ("Decides the structural clauses of C08: the table of block constructs extracted from every "
             "BlockBase.match call site agrees with the Fortran 2003/2008 rules (opening/END pair, name and label "
             "comparison flags), every END statement class names its keyword and refuses a bare END where the standard "
